@@ -89,8 +89,8 @@ func init() {
 	register(&Property{
 		ID: "C06",
 		Explanation: "Decides structural necessary conditions of behaviour-preserving minimization: GUARD(entry): minimize consults Grammar.Inputs so that entry states (referenced by index from generated Parse*/lookahead functions) stay apart. GUARD(final): the initial partition consults Tables.FinalStates (reaching `end` stops the parse, which no action signature records). FIELDCOV(minimize): the rule-class key is built from LHS, RuleLen (as popped by the parser), action, node type and flags; every Tables field that holds or is indexed by state numbers is rewritten on the merge path; new Tables fields must be classified; the refinement signature contains own partition, edge symbol and target partition. " +
-			"MUSTPASS(compile-order): minimize runs after conflict resolution and before Optimize. KEYCOPY: the interning containers that partition states by signature store a copy of the signature, never the caller's (reusable) slice. AGREE(memo-key): generated code identifies a lookahead by its entry state (kept apart), never by its final state (merged with other final states). SIGNATURE(lalr-cell): each element of a lookahead state's initial signature is the Lalr cell itself or ruleClass[cell], never a constant standing for a class of cells. LOCKSTEP(rule-copy): the action id that keeps rules with different default-cast behaviour apart is stored into the lalr copy of the rule (the one minimize keys on) whenever it is stored into the grammar copy (the one applyRule is generated from). Not decided: that Moore refinement yields a behaviourally equivalent automaton on all inputs. ACCESSOR(len): IntSliceSet.Len(), the convergence measure of the refinement loop, returns the counter Insert advances per new element. GUARD(final) also requires the protected set to hold the elements of Tables.FinalStates. SIGNATURE(lalr-cell) also requires every (terminal, action) pair of a row to be appended. KEYCOV(cast-action): the key under which generateTables shares default-cast action ids contains both types whose difference requires the cast, so reduce states that cast differently are never merged. The rule-class key also holds the trailing-nullable shape of the rule (F43). DEDUP(marker-states): the state lists of markers are rebuilt as sets under the renumbering.",
-		Rules: []string{"GUARD(entry)", "GUARD(final)", "FIELDCOV(minimize)", "MUSTPASS(compile-order)", "KEYCOPY", "LOCKSTEP(rule-copy)", "SIGNATURE(lalr-cell)", "AGREE(memo-key)", "GUARD(optimize-la)", "ACCESSOR(len)", "KEYCOV(cast-action)", "DEDUP(marker-states)"},
+			"MUSTPASS(compile-order): minimize runs after conflict resolution and before Optimize. KEYCOPY: the interning containers that partition states by signature store a copy of the signature, never the caller's (reusable) slice. AGREE(memo-key): generated code identifies a lookahead by its entry state (kept apart), never by its final state (merged with other final states). SIGNATURE(lalr-cell): each element of a lookahead state's initial signature is the Lalr cell itself or ruleClass[cell], never a constant standing for a class of cells. LOCKSTEP(rule-copy): the action id that keeps rules with different default-cast behaviour apart is stored into the lalr copy of the rule (the one minimize keys on) whenever it is stored into the grammar copy (the one applyRule is generated from). Not decided: that Moore refinement yields a behaviourally equivalent automaton on all inputs. ACCESSOR(len): IntSliceSet.Len(), the convergence measure of the refinement loop, returns the counter Insert advances per new element. GUARD(final) also requires the protected set to hold the elements of Tables.FinalStates. SIGNATURE(lalr-cell) also requires every (terminal, action) pair of a row to be appended. KEYCOV(cast-action): the key under which generateTables shares default-cast action ids contains both types whose difference requires the cast, so reduce states that cast differently are never merged. The rule-class key also holds the trailing-nullable shape of the rule (F43). DEDUP(marker-states): the state lists of markers are rebuilt as sets under the renumbering. INTERN(compare): the interning containers of util/container return an existing entry only after SliceEqual on the keys (equal hashes are not equal state signatures).",
+		Rules: []string{"GUARD(entry)", "GUARD(final)", "FIELDCOV(minimize)", "MUSTPASS(compile-order)", "KEYCOPY", "LOCKSTEP(rule-copy)", "SIGNATURE(lalr-cell)", "AGREE(memo-key)", "GUARD(optimize-la)", "ACCESSOR(len)", "KEYCOV(cast-action)", "DEDUP(marker-states)", "INTERN(compare)"},
 		Run: func(c *Ctx) {
 			ruleENTRYGUARD(c)
 			ruleFINALGUARD(c)
@@ -104,6 +104,7 @@ func init() {
 			ruleMEMOKEY(c)
 			ruleCASTKEY(c)
 			ruleMARKERDEDUP(c)
+			ruleINTERNCOMPARE(c)
 		},
 	})
 }
